@@ -2,7 +2,7 @@
 # usage: seedcheck.sh <ID> [more props to check...]   -- confirms a delivered seeded change in a scratch worktree and runs the quick checks on it
 id=$1; shift
 extra="$@"
-SRC=/tmp/seed_out/$id
+SRC=${SEEDSRC:-/tmp/seed_out}/$id
 WT=/tmp/wt_seed
 export GOFLAGS=-mod=mod GOPROXY=off GOSUMDB=off GOTOOLCHAIN=local GOWORK=off
 head=$(git -C /repo rev-parse HEAD)
@@ -23,8 +23,10 @@ rm -f $WT/$place
 pkgs=$(python3 -c "import json;print(' '.join('./'+p.replace('github.com/Fantom-foundation/lachesis-base/','')+'/...' for p in json.load(open('$SRC/meta.json')).get('touched_packages',[])))")
 echo -n "[$id] existing tests ($pkgs): "; if go test -vet=off -count=1 $pkgs > /tmp/seed_tests.txt 2>&1; then echo pass; else echo FAIL; tail -5 /tmp/seed_tests.txt; fi
 cd /verif
-for p in $id $extra; do
-  ./bin/lachk -property $p -tier quick -repo $WT -verif /tmp/seed_verif > /tmp/seed_chk_$p.txt 2>&1; rc=$?
-  echo "[$id] check $p exit=$rc"; grep -E "^(VIOLATED|UNDECIDED|internal)" /tmp/seed_chk_$p.txt | cut -c1-330
+prop=$(python3 -c "import json;print(json.load(open('$SRC/meta.json'))['property'])")
+for p in $prop $extra; do
+  out=/tmp/seed_chk_$p.txt; [ "$p" = "$prop" ] && out=/tmp/seed_chk_$id.txt
+  ./bin/lachk -property $p -tier quick -repo $WT -verif /tmp/seed_verif > $out 2>&1; rc=$?
+  echo "[$id] check $p exit=$rc"; grep -E "^(VIOLATED|UNDECIDED|internal)" $out | cut -c1-330
 done
 git -C $WT checkout -q -- . ; git -C $WT clean -fdq
